@@ -71,6 +71,7 @@ type Profile struct {
 	NodeLookalike float64 // probability of a root field shaped like node: lookup(id: ID!): Node
 	SplitValue    float64 // probability of a value type declared with disjoint field sets by two services (merge-only)
 	BareEntity    float64 // probability of an entity type that has no field besides id in any service
+	EmptyAbstract float64 // probability of an interface without any implementing type, reachable from a root field
 	SpreadEnum    bool    // services declare different subsets of an enum's values (merge-only universes)
 }
 
@@ -367,6 +368,10 @@ func NewUniverse(r *rand.Rand, p Profile) *Universe {
 			{Name: "width", Type: "Int", Owner: a}, {Name: "height", Type: "Int", Owner: a}, {Name: "weight", Type: "Float", Owner: b},
 		}})
 		splitRoots = []*Field{{Name: "dimsA", Type: "Dims", Owner: a}, {Name: "dimsB", Type: "Dims", Owner: b}}
+	}
+	if p.EmptyAbstract > 0 && r.Float64() < p.EmptyAbstract {
+		add(&TypeDef{Name: "Lonely", Kind: KInterface, Fields: []*Field{{Name: "x", Type: "Int", Owner: -1}}})
+		splitRoots = append(splitRoots, &Field{Name: "lonely", Type: "Lonely", Owner: r.Intn(u.K)}, &Field{Name: "lonelies", Type: "[Lonely!]", Owner: r.Intn(u.K)})
 	}
 	// roots
 	mkRoots := func(n int, names []string, used map[string]bool) []*Field {
